@@ -126,6 +126,22 @@ func HarnessMetadata() {
 		if served {
 			vrtCover("metadata.served")
 		}
+		if (vrtProp("C18") || vrtProp("C11")) && served && conf.Organisation != nil {
+			// organisation data made of legal (here: ASCII) XML characters comes back, through the
+			// library's decoder, exactly as configured
+			org := conf.Organisation
+			if vrtLegalASCII(org.Name) && vrtLegalASCII(org.DisplayName) && vrtLegalASCII(org.URL) {
+				// (the module publishes the organisation inside the IDPSSO descriptor)
+				var o *md.OrganizationType
+				if ent.IDPSSODescriptor != nil {
+					o = ent.IDPSSODescriptor.Organization
+				}
+				vrtAssert("C18.organisation-data-is-what-was-configured", o != nil &&
+					len(o.OrganizationName) == 1 && o.OrganizationName[0].Text == org.Name &&
+					len(o.OrganizationDisplayName) == 1 && o.OrganizationDisplayName[0].Text == org.DisplayName &&
+					len(o.OrganizationURL) == 1 && o.OrganizationURL[0].Text == org.URL)
+			}
+		}
 		if vrtProp("C10") && st.faulted {
 			vrtAssert("C10.fault-ends-in-error-reply", rp.Kind == "error" && rp.Code >= 500)
 			vrtAssert("C10.no-signed-metadata-after-fault", !served || ent.Signature == nil)
